@@ -10,9 +10,9 @@ unknown targets, closing, until-close, truncated), EVERY schedule (hence every d
 cycles.  F30 and F51 are repaired in the tree (the model has their fixed behaviour).
 
 Full statement of "each request produces exactly one entry": it FAILS for a response the server cuts short after
-some body bytes (C19-K1: the parser waits forever, `outcome = stuck`): `truncated_response_sticks`; and the
-https→http refusal ends the client by raising (`outcome = refused`).  `one_entry_each_partial` has exactly the guard
-"the run ended idle" (not waiting, queue empty).
+some body bytes (C19-K1: the parser waits forever, `outcome = stuck`): `truncated_response_sticks`.
+`one_entry_each_partial` has exactly the guard "the run ended idle" (not waiting, queue empty).  The https→http refusal
+no longer ends the client (tree after the F49 repair): it yields an errored entry (`refused_redirect_is_reported`).
 -/
 namespace Hio.Http.Cli
 open Hio.Http
@@ -96,16 +96,26 @@ theorem https_client_only_tls (port : Nat) (servers : List Server) (reqs : List 
   rw [hw] at hm
   simpa [init] using ht w (by simpa [init] using hm)
 
-/-- … and the refusal is final: nothing is transmitted or queued afterwards -/
-theorem refusal_is_terminal (servers : List Server) (sched : List Bool) (s : St) (h : s.outcome = .refused) :
-    run servers sched s = s :=
-  run_terminal servers sched s (by rw [h]; decide)
+/-- … and the refusal is reported, not raised: when the response in process is a redirect received on https that points to an
+http target, consuming it puts NOTHING on the wire, keeps the client on https, and appends exactly one errored entry whose
+history ends with that redirect response; the client stops waiting, so the queue moves on -/
+theorem refused_redirect_is_reported (servers : List Server) (s : St) (rp : Resp) (l : Loc)
+    (hr : isRedirect rp.status = true) (hl : rp.loc = some l) (hs : s.secure = true) (hi : l.secure = false) :
+    let s' := handle servers s rp
+    s'.wire = s.wire ∧ s'.secure = true ∧ s'.waited = false ∧
+    ∃ e, s'.entries = s.entries ++ [e] ∧ e.errored = true ∧
+      e.redirects = s.redirects ++ [⟨rp.status, s.cur.path, s.latest⟩] := by
+  simp only [handle, hr, hl, hs, hi, ↓reduceIte, finish]
+  simp
 
-/-- the refusal does happen (test on a concrete world): https client, server answers 302 → http://…:8102 -/
+/-- the refusal does happen (test on a concrete world): https client, server answers 302 → http://…:8102; the second
+queued request is still served on the https connection afterwards -/
 theorem refusal_witness :
-    let servers : List Server := [⟨8101, [⟨302, some ⟨false, 8102, lit "/r"⟩, [], 0, false⟩]⟩, ⟨8102, []⟩]
-    let s := after true 8101 servers [⟨lit "GET", lit "/a", []⟩] [true, true, true]
-    s.outcome = .refused ∧ s.wire.length = 1 ∧ s.entries = [] := by
+    let servers : List Server := [⟨8101, [⟨302, some ⟨false, 8102, lit "/r"⟩, [], 0, false⟩, ⟨200, none, lit "ok", 0, false⟩]⟩, ⟨8102, []⟩]
+    let s := after true 8101 servers [⟨lit "GET", lit "/a", []⟩, ⟨lit "GET", lit "/b", []⟩] [true, true, true]
+    s.outcome = .running ∧ s.waited = false ∧ s.wire.map (·.port) = [8101, 8101] ∧
+      s.entries.map (·.errored) = [true, false] ∧ s.entries.map origin = [some 0, some 1] ∧
+      (s.entries.map (fun e => e.redirects.map (·.status))) = [[302], []] := by
   decide
 
 /-- C19-K1 witness (known finding, replayed on the implementation): a response cut short after some body bytes is
